@@ -54,11 +54,12 @@ def edit(desc, rng):
     if kind == "script":
         k = rng.choice([x for x in ("buildScript", "packageScript", "checkoutScript") if x in r] or [None])
         if k is None: return None
-        r[k] = r[k] + "# edited %d\ntrue\n" % rng.randrange(1000)
+        n = rng.randrange(1000)
+        r[k] = r[k] + "echo edited > edited-%d.txt\n" % n
     elif kind == "class_script":
         cs = [c for c in d["classes"].values() if "buildScript" in c]
         if not cs: return None
-        rng.choice(cs)["buildScript"] += "true # edited\n"
+        rng.choice(cs)["buildScript"] += "echo edited > edited-cls-%d.txt\n" % rng.randrange(1000)
     elif kind == "var_value":
         if not r.get("environment"): return None
         k = rng.choice(sorted(r["environment"]))
@@ -159,6 +160,44 @@ def check_family(ctx, family, label):
                            "steps": [items[0][1][1], items[1][1][1]]})
 
 
+def check_usage_independence(ctx, family, label):
+    """ids of a package depend on its own declared inputs only, not on which other usages of
+    the same recipes exist elsewhere in the project: after dropping the LAST dependency of a
+    recipe, everything reached through its remaining dependencies keeps its ids"""
+    base_desc, base = family[0]
+    for desc, dumped in family[1:]:
+        changed = [n for n in base_desc["recipes"] if n in desc["recipes"] and
+                   len(desc["recipes"][n].get("depends", [])) + 1 == len(base_desc["recipes"][n].get("depends", [])) and
+                   desc["recipes"][n].get("depends", []) == base_desc["recipes"][n].get("depends", [])[:-1]]
+        if len(changed) != 1:
+            continue
+        rname = changed[0]
+        others = {n: r for n, r in desc["recipes"].items() if n != rname}
+        if any(base_desc["recipes"].get(n) != r for n, r in others.items()):
+            continue
+        kept = [d if isinstance(d, str) else d["name"] for d in desc["recipes"][rname].get("depends", [])]
+        for path, pk in base["packages"].items():
+            if pk["recipe"] != rname:
+                continue
+            for dep in kept:
+                prefix = path + "/" + dep
+                for p2, pk2 in base["packages"].items():
+                    if p2 != prefix and not p2.startswith(prefix + "/"):
+                        continue
+                    other = dumped["packages"].get(p2)
+                    if other is None:
+                        continue
+                    ctx.count("usage-independence:compared")
+                    for kind in ("checkout", "build", "package"):
+                        a, b = pk2["steps"][kind], other["steps"][kind]
+                        if a["valid"] and b["valid"] and a["vid"] != b["vid"]:
+                            ctx.violation("variant-id-depends-on-other-usages",
+                                          "%s step of %s has Variant-Id %s in the project and %s after an unrelated sibling dependency of %s was dropped"
+                                          % (kind, p2, a["vid"][:12], b["vid"][:12], rname),
+                                          {"label": label, "descs": [base_desc, desc], "package": p2, "kind": kind})
+                            return
+
+
 def run(ctx):
     rng = ctx.rng
     ctx.rule = ("generated recipe projects (classes, vars, weak vars, tools, provided vars/deps/tools, sandbox, fingerprints, "
@@ -190,6 +229,16 @@ def run(ctx):
             if e is not None:
                 fam.append((e[0], sandbox))
                 ctx.count("edit:" + e[1])
+        # dropping the last dependency of a recipe must not change the ids of what is reached through its other dependencies
+        for _ in range(2):
+            e = None
+            for _try in range(8):
+                e = edit(base, rng)
+                if e is not None and e[1] == "dep_drop":
+                    break
+            if e is not None and e[1] == "dep_drop":
+                fam.append((e[0], sandbox))
+                ctx.count("edit:dep_drop(extra)")
         # reverting restores: the base project once more
         fam.append((copy.deepcopy(base), sandbox))
         jobs.append(("gen%d" % i, fam))
@@ -212,6 +261,7 @@ def run(ctx):
             if a != b:
                 ctx.violation("revert-does-not-restore-ids", "re-parsing the unchanged project gave different ids", {"desc": fams[ji][0][0]})
         check_family(ctx, fam, lbl)
+        check_usage_independence(ctx, fam, lbl)
         for desc, dumped in fam:
             for path, kind, st in steps_of(dumped):
                 if not st["valid"]:
